@@ -21,6 +21,7 @@ import (
 	"strings"
 	"sync"
 	"testing"
+	"time"
 
 	"github.com/folbricht/desync"
 	"pgregory.net/rapid"
@@ -922,6 +923,8 @@ var spec = &hx.Spec[Case]{
 	Required: required(),
 	Gen:      genCase,
 	Run:      run,
+	// a case that never returns is a verdict (confirmed by a replay in a fresh process), not a timeout of the run
+	Watchdog: hx.Pick(120*time.Second, 300*time.Second),
 }
 
 func TestMain(m *testing.M) { hx.Main(m) }
